@@ -12,7 +12,7 @@ LEVEL = "fault_enumeration"
 def describe(tier):
     return {
         "rule": "every file of the C10 input family (quick: arity 1..4, <=2 entries; thorough: <=3 entries) is written once by IndxIO.save and then "
-        "truncated to EVERY length k in 0..len-1 (os.truncate, longest first); IndxIO.load must raise at each k. Plus four larger files (4-17 KiB, one of exactly one page) cut at every byte. evaluations = crash points; "
+        "truncated to EVERY length k in 0..len-1 (os.truncate, longest first); IndxIO.load must raise at each k. Plus four larger files (4-17 KiB, one of exactly one page) cut at every byte, and the file of every initial state of the C06 state graph (all dense arrays x all common values, 1-D/2-D/3-D). evaluations = crash points; "
         "a crash point is non-trivial when it lies beyond the 16-byte header (the prefix carries a valid magic and size word). Distinct = distinct (file bytes, k).",
         "bounds": {"cut_points": "all", "files": "C10 family"},
         "exhaustive": True,
@@ -31,7 +31,7 @@ LARGE = [
 
 
 def blocks(tier):
-    return indx.family_blocks(tier) + [("large", {"i": i, "part": k}) for i in range(len(LARGE)) for k in range(8)]
+    return indx.family_blocks(tier) + [("large", {"i": i, "part": k}) for i in range(len(LARGE)) for k in range(8)] + [("index-states", {"tier": tier, "part": k}) for k in range(16)]
 
 
 def tear(keys, arrays, common, acc, only_k=None):
@@ -86,6 +86,28 @@ def tear_range(keys, arrays, common, acc, part, nparts):
 
 
 def run_block(family, p, acc):
+    if family == "index-states":
+        # the files of real indexes: every initial state of the C06 state graph (all dense arrays x all commons, 1-D, 2-D, 3-D)
+        from .. import hist
+
+        keys = hist.initial_keys(hist.BOUNDS[p["tier"]])
+        for i, k in enumerate(keys):
+            if i % 16 != p["part"]:
+                continue
+            shape, common, ents = k
+            if common < 0:
+                continue
+            ckeys = [c for c, b, ds in ents]
+            arrays = [numpy.frombuffer(b, dtype=numpy.dtype(ds)).tolist() for c, b, ds in ents]
+            n, deep = tear(ckeys, arrays, common, acc)
+            acc.count("files", 1)
+            acc.count("crash_points", n)
+            acc.evaluations += max(n - 1, 0)
+            h0 = hash(k)
+            for j in range(deep):
+                acc._keys.add(hash((h0, j)))
+            acc.case(("state", k), nontrivial=False, outcome=n, sample=lambda: {"index_state": hist.describe_key(k), "file_length": n})
+        return
     if family == "large":
         keys, arrays, common = LARGE[p["i"]]
         keys = [tuple(k) for k in keys]
